@@ -385,8 +385,24 @@ func genConv(w *bufio.Writer, r *rng, id int) {
 	if len(sc.Funcs[0].Ins) > 0 && r.chance(3, 4) {
 		T = sc.Funcs[0].Ins[0].Ty // keep the chains generated for the first requirement relevant
 	}
+	// now and then: the target is the error interface itself and a non-nil error value is available (supplied, or
+	// returned by a converter as an ordinary output): the identity call then *fails* with that value as its error
+	errTarget := r.chance(1, 8)
+	if errTarget {
+		T = tyError
+	}
 	sc.Funcs[0] = &fnSpec{ID: 0, Form: "pos", OForm: "pos", Ins: []lab{{Ty: T}}, Outs: []lab{{Ty: T}}, Script: "identity"}
 	sc.Defaults = 0
+	if errTarget {
+		if r.chance(1, 2) {
+			sc.Opts = append(sc.Opts, optSpecC{Kind: "typed", Ty: tyE0, Vid: 900})
+		} else {
+			src := lab{Ty: r.intn(4)}
+			f := cfgGeneral.newConv(r, sc, []lab{{Ty: tyE0}}, []lab{src})
+			f.Script, f.Once, f.HasErr = "ok", false, false
+			sc.Opts = append(sc.Opts, optSpecC{Kind: "convfunc", Fids: []int{f.ID}}, optSpecC{Kind: "typed", Ty: src.Ty, Vid: 901})
+		}
+	}
 	if r.chance(1, 6) { // a user converter of the identity's own Go type collides with the target vertex
 		f := cfgGeneral.newConv(r, sc, []lab{{Ty: T}}, []lab{{Ty: T}})
 		f.Form, f.OForm, f.HasErr, f.Script, f.Once = "pos", "pos", false, "ok", false
